@@ -235,6 +235,15 @@ def _next(it, *default):
                 return default[0]
             raise_(StopIteration)
         return I.seq_elem(it, z3.IntVal(0))
+    if isinstance(it, list):
+        # a generator expression is evaluated eagerly to a list by the interpreter (frame.ex_GeneratorExp): next() on
+        # it is next() on the generator, i.e. its first element (a real list here would be a TypeError only in CPython
+        # code that calls next() on a list literal, which the repository does not do)
+        if it:
+            return it[0]
+        if default:
+            return default[0]
+        raise_(StopIteration)
     return I.native(next, [it] + list(default), {})
 
 
